@@ -475,6 +475,67 @@ theorem mmasUpdate_spec_nil (pm : PM F) (ρ hi lo : F) (pop : List (Ind F)) (hwf
   obtain ⟨x, hx⟩ := get?_isSome pm hwf hi' hj'
   simp only [hx, Option.map_some, mmasSpec, hl, firstMin, getD_of_get? pm hx]
 
+/-! The same with the rewarded tour given explicitly (any of the tied best tours, see `Model/Aco.lean`). -/
+
+theorem mmasUpdateWith_eq (pm : PM F) (ρ hi lo : F) (best : Option (Ind F × F)) :
+    mmasUpdateWith pm ρ hi lo best =
+      (match best with
+       | none => some (pm.scale (1 - ρ))
+       | some (ind, o) => reward (pm.scale (1 - ρ)) (1 / o) (edges ind.route)).bind (clampStage lo hi) := by
+  cases best with
+  | none => simp only [mmasUpdateWith, clampStage, Option.bind_some]
+  | some p =>
+    obtain ⟨ind, o⟩ := p
+    simp only [mmasUpdateWith, clampStage]
+    cases reward (pm.scale (1 - ρ)) (1 / o) (edges ind.route) <;> rfl
+
+/-- `mmasUpdate` is `mmasUpdateWith` for the first minimal sampled tour. -/
+theorem mmasUpdate_eq_with (pm : PM F) (ρ hi lo : F) (pop : List (Ind F))
+    (h : pop.drop 1 = [] ∨ (firstMin (pop.drop 1)).isSome = true) :
+    mmasUpdate pm ρ hi lo pop = mmasUpdateWith pm ρ hi lo (firstMin (pop.drop 1)) := by
+  rcases h with hl | hs
+  · rw [mmasUpdate_of_nil pm ρ hi lo pop hl, mmasUpdateWith_eq, hl]
+    simp [firstMin]
+  · obtain ⟨⟨ind, o⟩, hmin⟩ := Option.isSome_iff_exists.mp hs
+    rw [mmasUpdate_of_min pm ρ hi lo pop ind o hmin, mmasUpdateWith_eq, hmin]
+
+theorem mmasUpdateWith_spec (pm : PM F) (ρ hi lo : F) (hwf : pm.wf = true) (best : Option (Ind F × F))
+    (hr : ∀ ind o, best = some (ind, o) → ∀ c ∈ ind.route, c < pm.dim) (hb : lo ≤ hi) :
+    ∃ pm', mmasUpdateWith pm ρ hi lo best = some pm' ∧ pm'.dim = pm.dim ∧ pm'.wf = true ∧
+      ∀ i j, i < pm.dim → j < pm.dim → pm'.get? i j = some (mmasSpecWith pm ρ hi lo best i j) := by
+  have hw1 : (pm.scale (1 - ρ)).wf = true := by rw [scale_wf]; exact hwf
+  cases best with
+  | none =>
+    obtain ⟨pm', h3, hd3, hw3, hg3⟩ := clampStage_get? lo hi hb (pm.scale (1 - ρ)) hw1
+    refine ⟨pm', by rw [mmasUpdateWith_eq]; exact h3, hd3, hw3, ?_⟩
+    intro i j hi' hj'
+    rw [hg3 i j hi' hj', scale_get? pm hwf _ hi' hj']
+    obtain ⟨x, hx⟩ := get?_isSome pm hwf hi' hj'
+    simp only [hx, Option.map_some, mmasSpecWith, getD_of_get? pm hx]
+  | some p =>
+    obtain ⟨ind, o⟩ := p
+    obtain ⟨pm2, h2, hd2, hw2, hg2⟩ :=
+      reward_spec (1 / o) (edges ind.route) (pm.scale (1 - ρ)) hw1 (edgesIn_of_route (hr ind o rfl))
+    have hd2' : pm2.dim = pm.dim := hd2
+    obtain ⟨pm', h3, hd3, hw3, hg3⟩ := clampStage_get? lo hi hb pm2 hw2
+    refine ⟨pm', by rw [mmasUpdateWith_eq]; simp only [h2, Option.bind_some]; exact h3, by rw [hd3, hd2'], hw3, ?_⟩
+    intro i j hi' hj'
+    rw [hg3 i j (hd2' ▸ hi') (hd2' ▸ hj'), hg2 i j hi' hj', scale_get? pm hwf _ hi' hj']
+    obtain ⟨x, hx⟩ := get?_isSome pm hwf hi' hj'
+    simp only [hx, Option.map_some, mmasSpecWith, getD_of_get? pm hx]
+
+theorem mmasSpec_eq_with (pm : PM F) (ρ hi lo : F) (pop : List (Ind F)) (i j : Nat) :
+    mmasSpec pm ρ hi lo pop i j = mmasSpecWith pm ρ hi lo (firstMin (pop.drop 1)) i j := by
+  unfold mmasSpec mmasSpecWith
+  cases firstMin (pop.drop 1) with
+  | none => rfl
+  | some p => rfl
+
+theorem holdsMmas_eq_with (N : Num F) (pm : PM F) (ρ hi lo : F) (pop : List (Ind F)) (pm' : PM F) :
+    holdsMmas N pm ρ hi lo pop pm' = holdsMmasWith N pm ρ hi lo (firstMin (pop.drop 1)) pm' := by
+  unfold holdsMmas holdsMmasWith
+  simp only [mmasSpec_eq_with]
+
 end
 
 /-! ### Ordered-field facts -/
